@@ -326,7 +326,8 @@ def classify(prop, violations):
         for cand in known:
             # a finding's signature may end in a glob for the residue part; the property, the
             # violated law and the operation kind are always spelled out
-            if fnmatch.fnmatchcase(v["signature"], cand["signature"]):
+            # '[' is a literal in signatures (paths like .inames[][]), never a character class
+            if fnmatch.fnmatchcase(v["signature"], cand["signature"].replace("[", "[[]")):
                 k = cand
                 break
         if k is not None:
